@@ -17,9 +17,16 @@ structure IsLogOf (sigs : Content) (log : Log) : Prop where
 
 def noPending : Pending := fun _ _ _ => False
 
-/-- how the loop cursor encodes "the last row of this group seen so far" -/
+/-- the cursor after the seed row of a group (the last unmarked row before the first marked one): its stored
+    hashes; without a seed row the cursor is still the one of the previous group -/
+def seedCursor (c : Cursor) (room ent : Nat) : Option DayRow → Cursor
+  | some s => { grp := some (room, ent), daily := s.daily, hist := s.hist }
+  | none => c
+
+/-- how the loop cursor encodes "the last row of this group kept so far": `none` = no row of the group precedes
+    (the cursor is still in another group, or it is in the group without a history) -/
 def CurIs (c : Cursor) (room ent : Nat) : Option (Hash × Option Hash) → Prop
-  | none => sameGroup c room ent = false
+  | none => sameGroup c room ent = false ∨ (c.grp = some (room, ent) ∧ c.hist = none)
   | some (h, dl) => c.grp = some (room, ent) ∧ c.hist = some h ∧ c.daily = dl
 
 theorem sameGroup_false_iff (c : Cursor) (room ent : Nat) :
@@ -68,6 +75,21 @@ theorem nextHist_some (prev : Option (Hash × Option Hash)) (x : Hash) : ∃ y, 
   | none => exact ⟨x, rfl⟩
   | some p => obtain ⟨h, dl⟩ := p; exact ⟨_, rfl⟩
 
+theorem sameGroup_true_iff (c : Cursor) (room ent : Nat) :
+    sameGroup c room ent = true ↔ c.grp = some (room, ent) := by
+  have := sameGroup_false_iff c room ent
+  cases h : sameGroup c room ent with
+  | true =>
+    simp only [true_iff]
+    cases hg : decide (c.grp = some (room, ent)) with
+    | true => simpa using hg
+    | false =>
+      have hne : c.grp ≠ some (room, ent) := by simpa using hg
+      rw [← this] at hne; rw [h] at hne; cases hne
+  | false =>
+    have hne := this.mp h
+    simp only [Bool.false_eq_true, false_iff]; exact hne
+
 section step
 variable {d : Defects} (h1 : d.historySeedDropped = false) (h2 : d.entityNotCompared = false)
   (h3 : d.emptyDayRow = false) {sigs : Content} {room ent : Nat} {c : Cursor} {r : DayRow}
@@ -80,56 +102,74 @@ theorem stepRow_clean_same {h : Hash} (hd : r.dirty = false) (hg : c.grp = some 
   have hsg : sameGroup c room ent = true := by simp [sameGroup, hg]
   simp only [stepRow, hd, Bool.not_false, ↓reduceIte, hsg, hh]
 
-include h1 in
-theorem stepRow_clean_first (hd : r.dirty = false) (hg : sameGroup c room ent = false) :
+include h3 in
+/-- an unmarked row met by a cursor that is in the group without a history: the chain starts at this row -/
+theorem stepRow_clean_first (hd : r.dirty = false) (hg : c.grp = some (room, ent)) (hh : c.hist = none) :
     stepRow d sigs room ent c r =
       ({ grp := some (room, ent), daily := r.daily, hist := r.daily }, some { r with hist := r.daily }) := by
-  simp only [stepRow, hd, Bool.not_false, ↓reduceIte, hg, Bool.false_eq_true, h1]
+  have hsg : sameGroup c room ent = true := by simp [sameGroup, hg]
+  simp only [stepRow, hd, Bool.not_false, ↓reduceIte, hsg, hh, h3, Bool.false_eq_true]
+
+include h1 in
+/-- the seed row: an unmarked row met by a cursor that is in another group loads its stored hashes -/
+theorem stepRow_seed (hd : r.dirty = false) (hg : sameGroup c room ent = false) :
+    stepRow d sigs room ent c r = (seedCursor c room ent (some r), some r) := by
+  simp only [stepRow, hd, Bool.not_false, ↓reduceIte, hg, Bool.false_eq_true, h1, seedCursor]
 
 include h3 in
 theorem stepRow_dirty_empty (hd : r.dirty = true) (he : sigs room ent r.day = []) :
-    stepRow d sigs room ent c r = (c, none) := by
+    stepRow d sigs room ent c r = (if sameGroup c room ent then c else Cursor.start room ent, none) := by
   simp [stepRow, hd, he, h3]
+
+/-- the history a marked, non-empty day gets -/
+def histOf (c : Cursor) (room ent : Nat) (daily : Option Hash) : Option Hash :=
+  if sameGroup c room ent then
+    match c.hist with
+    | some h => some (chainHash h c.daily)
+    | none => daily
+  else daily
 
 include h2 h3 in
 theorem stepRow_dirty (hd : r.dirty = true) (hne : sigs room ent r.day ≠ []) :
     stepRow d sigs room ent c r =
       ({ grp := some (room, ent), daily := dailyOf (sigs room ent r.day),
-         hist := if sameGroup c room ent then c.hist.map (fun h => chainHash h c.daily)
-                 else dailyOf (sigs room ent r.day) },
+         hist := histOf c room ent (dailyOf (sigs room ent r.day)) },
         some { day := r.day, count := (sigs room ent r.day).length, daily := dailyOf (sigs room ent r.day),
-               hist := if sameGroup c room ent then c.hist.map (fun h => chainHash h c.daily)
-                       else dailyOf (sigs room ent r.day),
-               dirty := false }) := by
+               hist := histOf c room ent (dailyOf (sigs room ent r.day)), dirty := false }) := by
   have hne' : (sigs room ent r.day).isEmpty = false := by
     cases hs : sigs room ent r.day with
     | nil => exact absurd hs hne
     | cons a t => rfl
-  simp only [stepRow, hd, Bool.not_true, Bool.false_eq_true, ↓reduceIte, hne', h3, sameForMarked_eq h2]
-  cases c.hist <;> rfl
+  simp only [stepRow, hd, Bool.not_true, Bool.false_eq_true, ↓reduceIte, hne', h3, sameForMarked_eq h2, histOf,
+    Bool.and_true, Bool.not_false]
+  rfl
 
-include h1 h2 h3 in
-/-- one iteration of the loop, intended behaviour -/
+include h2 h3 in
+/-- one iteration of the loop, the code with the three repairs -/
 theorem stepRow_spec {prev : Option (Hash × Option Hash)}
-    (hc : CurIs c room ent prev) (hr : r.dirty = false → RowRight sigs room ent r) :
+    (hc : CurIs c room ent prev) (hr : r.dirty = false → RowRight sigs room ent r ∧ c.grp = some (room, ent)) :
     (survives sigs room ent r = true →
       (stepRow d sigs room ent c r).2 = some (specRow sigs room ent prev r.day) ∧
       CurIs (stepRow d sigs room ent c r).1 room ent
         ((nextHist prev (dailyOf (sigs room ent r.day))).map fun h => (h, dailyOf (sigs room ent r.day)))) ∧
-    (survives sigs room ent r = false → stepRow d sigs room ent c r = (c, none)) := by
+    (survives sigs room ent r = false →
+      (stepRow d sigs room ent c r).2 = none ∧ CurIs (stepRow d sigs room ent c r).1 room ent prev) ∧
+    (stepRow d sigs room ent c r).1.grp = some (room, ent) := by
   cases hd : r.dirty with
   | false =>
-    have hrr := hr hd
+    obtain ⟨hrr, hcg⟩ := hr hd
     obtain ⟨x, hx⟩ := dailyOf_some hrr.1
-    refine ⟨fun _ => ?_, fun h => by simp [survives, hd] at h⟩
     have hrd : r.daily = some x := by rw [hrr.2.2, hx]
+    have hcnt := hrr.2.1
     cases prev with
     | none =>
-      have hsg : sameGroup c room ent = false := hc
-      rw [stepRow_clean_first h1 hd hsg]
-      refine ⟨?_, ?_⟩
+      have hh : c.hist = none := by
+        rcases hc with hc | hc
+        · rw [(sameGroup_true_iff _ _ _).mpr hcg] at hc; cases hc
+        · exact hc.2
+      rw [stepRow_clean_first h3 hd hcg hh]
+      refine ⟨fun _ => ⟨?_, ?_⟩, fun h => by simp [survives, hd] at h, rfl⟩
       · simp only [specRow, nextHist, hx]
-        have hcnt := hrr.2.1
         cases r; simp only at hrd hcnt hd ⊢; simp [hrd, hcnt, hd]
       · simp only [hx, nextHist, Option.map_some, CurIs, hrd]
         exact ⟨trivial, trivial, trivial⟩
@@ -137,34 +177,58 @@ theorem stepRow_spec {prev : Option (Hash × Option Hash)}
       obtain ⟨h, dl⟩ := p
       obtain ⟨g1, g2, g3⟩ := hc
       rw [stepRow_clean_same hd g1 g2]
-      refine ⟨?_, ?_⟩
+      refine ⟨fun _ => ⟨?_, ?_⟩, fun h => by simp [survives, hd] at h, rfl⟩
       · simp only [specRow, nextHist, hx, g3]
-        have hcnt := hrr.2.1
         cases r; simp only at hrd hcnt hd ⊢; simp [hrd, hcnt, hd]
       · simp only [hx, nextHist, Option.map_some, CurIs, hrd, g3]
         exact ⟨trivial, trivial, trivial⟩
   | true =>
-    refine ⟨fun hs => ?_, fun hs => ?_⟩
+    refine ⟨fun hs => ?_, fun hs => ?_, ?_⟩
     · have hne' : sigs room ent r.day ≠ [] := by
         intro e; simp [survives, hd, e] at hs
       obtain ⟨x, hx⟩ := dailyOf_some hne'
       rw [stepRow_dirty h2 h3 hd hne']
       cases prev with
       | none =>
-        have hsg : sameGroup c room ent = false := hc
-        simp only [hsg, Bool.false_eq_true, ↓reduceIte, specRow, nextHist, hx, Option.map_some, CurIs]
+        have hh : histOf c room ent (dailyOf (sigs room ent r.day)) = dailyOf (sigs room ent r.day) := by
+          unfold histOf
+          rcases hc with hc | hc
+          · simp [hc]
+          · simp [(sameGroup_true_iff _ _ _).mpr hc.1, hc.2]
+        rw [hh]
+        simp only [specRow, nextHist, hx, Option.map_some, CurIs]
         exact ⟨trivial, trivial, trivial, trivial⟩
       | some p =>
         obtain ⟨h, dl⟩ := p
         obtain ⟨g1, g2, g3⟩ := hc
         have hsg : sameGroup c room ent = true := by simp [sameGroup, g1]
-        simp only [hsg, ↓reduceIte, g2, g3, specRow, nextHist, hx, Option.map_some, CurIs]
+        simp only [histOf, hsg, ↓reduceIte, g2, g3, specRow, nextHist, hx, Option.map_some, CurIs]
         exact ⟨trivial, trivial, trivial, trivial⟩
     · have he : sigs room ent r.day = [] := by
         cases hs' : sigs room ent r.day with
         | nil => rfl
         | cons a t => simp [survives, hd, hs'] at hs
-      exact stepRow_dirty_empty h3 hd he
+      rw [stepRow_dirty_empty h3 hd he]
+      refine ⟨rfl, ?_⟩
+      cases hsg : sameGroup c room ent with
+      | true =>
+        simp only [↓reduceIte]; exact hc
+      | false =>
+        simp only [Bool.false_eq_true, ↓reduceIte]
+        cases prev with
+        | none => exact Or.inr ⟨rfl, rfl⟩
+        | some p =>
+          obtain ⟨h, dl⟩ := p
+          have := (sameGroup_true_iff _ _ _).mpr hc.1
+          rw [hsg] at this; cases this
+    · cases hs' : sigs room ent r.day with
+      | nil =>
+        rw [stepRow_dirty_empty h3 hd hs']
+        cases hsg : sameGroup c room ent with
+        | true => simp only [↓reduceIte]; exact (sameGroup_true_iff _ _ _).mp hsg
+        | false => rfl
+      | cons a t =>
+        rw [stepRow_dirty h2 h3 hd (by rw [hs']; exact List.cons_ne_nil _ _)]
 
 end step
 
@@ -173,56 +237,52 @@ def survivorDays (sigs : Content) (room ent : Nat) (l : List DayRow) : List Nat 
   (l.filter (survives sigs room ent)).map (·.day)
 
 section walk
-variable {d : Defects} (h1 : d.historySeedDropped = false) (h2 : d.entityNotCompared = false)
+variable {d : Defects} (h2 : d.entityNotCompared = false)
   (h3 : d.emptyDayRow = false) {sigs : Content} {room ent : Nat}
 
-include h1 h2 h3 in
-/-- the loop over the rows of one group computes the specification rows of the days it keeps -/
+include h2 h3 in
+/-- the loop over the rows of one group computes the specification rows of the days it keeps. The cursor is in
+    the group already (a seed row was read), or the first row is a marked one -/
 theorem walkRows_spec (l : List DayRow) (c : Cursor) (prev : Option (Hash × Option Hash))
-    (hc : CurIs c room ent prev) (hr : ∀ r ∈ l, r.dirty = false → RowRight sigs room ent r) :
+    (hc : CurIs c room ent prev) (hr : ∀ r ∈ l, r.dirty = false → RowRight sigs room ent r)
+    (hfirst : c.grp = some (room, ent) ∨ ∀ r, l.head? = some r → r.dirty = true) :
     (walkRows d sigs room ent c l).2 = specRowsFrom sigs room ent prev (survivorDays sigs room ent l) ∧
     ((walkRows d sigs room ent c l).1.grp = c.grp ∨ (walkRows d sigs room ent c l).1.grp = some (room, ent)) := by
   induction l generalizing c prev with
   | nil => simp [walkRows, survivorDays, specRowsFrom]
   | cons r t ih =>
-    have hstep := stepRow_spec h1 h2 h3 (d := d) hc (hr r List.mem_cons_self)
+    have hrr : r.dirty = false → RowRight sigs room ent r ∧ c.grp = some (room, ent) := by
+      intro hd
+      refine ⟨hr r List.mem_cons_self hd, ?_⟩
+      rcases hfirst with h | h
+      · exact h
+      · have := h r rfl; rw [hd] at this; cases this
+    obtain ⟨hs1, hs2, hs3⟩ := stepRow_spec h2 h3 (d := d) hc hrr
     have hrt : ∀ x ∈ t, x.dirty = false → RowRight sigs room ent x :=
       fun x hx => hr x (List.mem_cons_of_mem _ hx)
     simp only [walkRows]
     cases hs : survives sigs room ent r with
     | true =>
-      obtain ⟨e1, e2⟩ := hstep.1 hs
-      obtain ⟨i1, i2⟩ := ih _ _ e2 hrt
+      obtain ⟨e1, e2⟩ := hs1 hs
+      obtain ⟨i1, i2⟩ := ih _ _ e2 hrt (Or.inl hs3)
       have hsd : survivorDays sigs room ent (r :: t) = r.day :: survivorDays sigs room ent t := by
         simp [survivorDays, hs]
       rw [hsd, specRowsFrom_cons]
-      refine ⟨?_, ?_⟩
+      refine ⟨?_, Or.inr ?_⟩
       · simp only [e1, Option.toList_some, List.singleton_append, i1]
-      · right
-        rcases i2 with i2 | i2
-        · rw [i2]
-          -- the cursor after a kept row is in the group
-          cases hp : (nextHist prev (dailyOf (sigs room ent r.day))) with
-          | none =>
-            exfalso
-            have hne : sigs room ent r.day ≠ [] := by
-              cases hd : r.dirty with
-              | false => exact (hr r List.mem_cons_self hd).1
-              | true => intro e; simp [survives, hd, e] at hs
-            obtain ⟨x, hx⟩ := dailyOf_some hne
-            obtain ⟨y, hy⟩ := nextHist_some prev x
-            rw [hx, hy] at hp; cases hp
-          | some y =>
-            rw [hp] at e2
-            exact e2.1
+      · rcases i2 with i2 | i2
+        · rw [i2]; exact hs3
         · exact i2
     | false =>
-      have e := hstep.2 hs
+      obtain ⟨e1, e2⟩ := hs2 hs
       have hsd : survivorDays sigs room ent (r :: t) = survivorDays sigs room ent t := by
         simp [survivorDays, hs]
-      rw [hsd, e]
-      obtain ⟨i1, i2⟩ := ih c prev hc hrt
-      exact ⟨by simp only [Option.toList_none, List.nil_append, i1], i2⟩
+      rw [hsd]
+      obtain ⟨i1, i2⟩ := ih _ prev e2 hrt (Or.inl hs3)
+      refine ⟨by simp only [e1, Option.toList_none, List.nil_append, i1], Or.inr ?_⟩
+      rcases i2 with i2 | i2
+      · rw [i2]; exact hs3
+      · exact i2
 
 end walk
 
@@ -309,8 +369,35 @@ theorem recomputeGroup_clean {d : Defects} {sigs : Content} {c : Cursor} {g : Gr
     (hre : (fromFirstDirty g.rows).isEmpty = true) : recomputeGroup d sigs c g = (c, g) := by
   simp [recomputeGroup, hre]
 
+theorem fromFirstDirty_head_dirty (rows : List DayRow) :
+    ∀ r, (fromFirstDirty rows).head? = some r → r.dirty = true := by
+  induction rows with
+  | nil => intro r h; simp [fromFirstDirty] at h
+  | cons a t ih =>
+    intro r h
+    unfold fromFirstDirty at h ih
+    rw [List.dropWhile_cons] at h
+    split at h
+    · exact ih r h
+    · rename_i ha
+      simp only [List.head?_cons, Option.some.injEq] at h
+      subst h; simpa using ha
+
+theorem dropLast_append_getLast {α} (l : List α) (s : α) (h : l.getLast? = some s) : l.dropLast ++ [s] = l := by
+  obtain ⟨ys, hys⟩ := List.getLast?_eq_some_iff.mp h
+  subst hys
+  simp
+
+theorem walkRows_cons (d : Defects) (sigs : Content) (room ent : Nat) (c : Cursor) (r : DayRow) (t : List DayRow) :
+    walkRows d sigs room ent c (r :: t) =
+      ((walkRows d sigs room ent (stepRow d sigs room ent c r).1 t).1,
+       (stepRow d sigs room ent c r).2.toList ++ (walkRows d sigs room ent (stepRow d sigs room ent c r).1 t).2) := rfl
+
+/-- the window of a group as the loop sees it: when the cursor comes from another group, reading the seed row
+    (if there is one) loads its stored hashes and leaves the row as it is; the walk proper starts at the first
+    marked row -/
 theorem recomputeGroup_static {d : Defects} {sigs : Content} {c : Cursor} {g : Group}
-    (h1 : d.historySeedDropped = false) (h4 : d.lazyScan = false)
+    (h1 : d.historySeedDropped = false) (h4 : d.lazyScan = false) (hc : sameGroup c g.room g.ent = false)
     (hre : (fromFirstDirty g.rows).isEmpty = false) :
     recomputeGroup d sigs c g =
       ((walkRows d sigs g.room g.ent (seedCursor c g.room g.ent (cleanPrefix g.rows).getLast?)
@@ -318,7 +405,18 @@ theorem recomputeGroup_static {d : Defects} {sigs : Content} {c : Cursor} {g : G
        { g with rows := cleanPrefix g.rows ++
           (walkRows d sigs g.room g.ent (seedCursor c g.room g.ent (cleanPrefix g.rows).getLast?)
             (fromFirstDirty g.rows)).2 }) := by
-  simp [recomputeGroup, hre, h1, h4]
+  cases hl : (cleanPrefix g.rows).getLast? with
+  | none =>
+    have hnil : cleanPrefix g.rows = [] := List.getLast?_eq_none_iff.mp hl
+    simp [recomputeGroup, hre, h4, hnil, seedCursor]
+  | some s =>
+    have hsd : s.dirty = false := mem_cleanPrefix_clean (List.mem_of_getLast? hl)
+    have hdl : (cleanPrefix g.rows).dropLast ++ [s] = cleanPrefix g.rows :=
+      dropLast_append_getLast _ s hl
+    simp only [recomputeGroup, hre, h4, hl, Bool.false_eq_true, ↓reduceIte, Option.toList_some, List.singleton_append]
+    rw [walkRows_cons, stepRow_seed h1 hsd hc]
+    simp only [Option.toList_some, List.singleton_append]
+    rw [← List.singleton_append, ← List.append_assoc, hdl]
 
 section group
 variable {d : Defects} (h1 : d.historySeedDropped = false) (h2 : d.entityNotCompared = false)
@@ -350,7 +448,7 @@ theorem recomputeGroup_done {sigs : Content} {g : Group} {c : Cursor} (hg : GInv
       have hr' : r ∈ cleanPrefix g.rows := by rw [← hall]; exact hr
       exact (hright r hr (hpreclean r hr')).1
   | false =>
-    rw [recomputeGroup_static h1 h4 hre]
+    rw [recomputeGroup_static h1 h4 hc hre]
     -- the cursor the walk starts with
     have hdays : ∀ dd ∈ (cleanPrefix g.rows).map (·.day), sigs g.room g.ent dd ≠ [] := by
       intro dd hd
@@ -359,14 +457,15 @@ theorem recomputeGroup_done {sigs : Content} {g : Group} {c : Cursor} (hg : GInv
       exact (hright r (hpremem r hr) (hpreclean r hr)).1
     have hcur : ∃ c0, seedCursor c g.room g.ent (cleanPrefix g.rows).getLast? = c0 ∧
         CurIs c0 g.room g.ent (stateAfter sigs g.room g.ent none ((cleanPrefix g.rows).map (·.day))) ∧
-        (c0.grp = c.grp ∨ c0.grp = some (g.room, g.ent)) := by
+        (c0.grp = c.grp ∨ c0.grp = some (g.room, g.ent)) ∧
+        (c0.grp = some (g.room, g.ent) ∨ ∀ r, (fromFirstDirty g.rows).head? = some r → r.dirty = true) := by
       cases hl : (cleanPrefix g.rows).getLast? with
       | none =>
         have : cleanPrefix g.rows = [] := List.getLast?_eq_none_iff.mp hl
-        refine ⟨c, rfl, ?_, Or.inl rfl⟩
-        rw [this]; exact hc
+        refine ⟨c, rfl, ?_, Or.inl rfl, Or.inr (fromFirstDirty_head_dirty g.rows)⟩
+        rw [this]; exact Or.inl hc
       | some s =>
-        refine ⟨_, rfl, ?_, Or.inr rfl⟩
+        refine ⟨_, rfl, ?_, Or.inr rfl, Or.inl rfl⟩
         have hl' : (specRowsFrom sigs g.room g.ent none ((cleanPrefix g.rows).map (·.day))).getLast? = some s := by
           have := hpre; unfold specRows at this; rw [← this]; exact hl
         rw [stateAfter_last _ _ hl']
@@ -374,10 +473,10 @@ theorem recomputeGroup_done {sigs : Content} {g : Group} {c : Cursor} (hg : GInv
           List.mem_of_getLast? hl'
         obtain ⟨h, hh⟩ := specRowsFrom_hist_some _ _ hdays s hsmem
         rw [hh]; exact ⟨rfl, hh, rfl⟩
-    obtain ⟨c0, hc0, hcur, hgrp0⟩ := hcur
+    obtain ⟨c0, hc0, hcur, hgrp0, hfirst⟩ := hcur
     rw [hc0]
-    obtain ⟨w1, w2⟩ := walkRows_spec h1 h2 h3 (d := d) (fromFirstDirty g.rows) c0 _ hcur
-      (fun r hr hd => hright r (hrestmem r hr) hd)
+    obtain ⟨w1, w2⟩ := walkRows_spec h2 h3 (d := d) (fromFirstDirty g.rows) c0 _ hcur
+      (fun r hr hd => hright r (hrestmem r hr) hd) hfirst
     have hdaysOut : ((walkRows d sigs g.room g.ent c0 (fromFirstDirty g.rows)).2).map (·.day) =
         survivorDays sigs g.room g.ent (fromFirstDirty g.rows) := by
       rw [w1, specRowsFrom_days]
